@@ -102,12 +102,6 @@ Definition eq_guard (st : state) (o : op) : bool :=
       | Some dst, Some src => kind_eqb (v_kind src) (v_kind dst) || negb (Nat.eqb (v_buf dst) (v_buf src))
       | _, _ => true
       end
-  | OGoExport v =>
-      (* open finding C17-N10: Value.Export() of a view whose buffer is detached *)
-      match nth_error (views st) v with
-      | Some vw => negb (is_det st (v_buf vw))
-      | None => true
-      end
   | _ => true
   end.
 
@@ -262,10 +256,8 @@ Proof.
     destruct (Iv sv src Hv) as (_ & _ & Hal & _).
     rewrite conv_map_eq by assumption. rewrite !addr_MI_MS by assumption. reflexivity.
   - (* Go export *)
-    unfold op_goexport, with_view. cbn [eq_guard] in G. revert G.
-    destruct (nth_error (views st) v) as [vw|] eqn:Hv; [|reflexivity]. intros G.
+    unfold op_goexport, with_view. destruct (nth_error (views st) v) as [vw|] eqn:Hv; [|reflexivity].
     destruct (Iv v vw Hv) as (_ & _ & Hal & _).
-    apply negb_true_iff in G. rewrite G.
     rewrite !addr_MI_MS by assumption. reflexivity.
   - (* write through the exported slice *)
     unfold op_goexportwrite, with_view. destruct (nth_error (views st) v) as [vw|] eqn:Hv; [|reflexivity].
